@@ -73,6 +73,9 @@ def build(case):
         pop.set_dim_names(['dd%d' % i for i in range(pop.n_dim())])
         pop.set_dim_names(None)
     cov = None if case['cov'] is None else np.array(case['cov'])
+    if cov is None and case.get('extra_cov'):
+        # covariates are handed over although the population model uses none
+        cov = np.full((case['n_ids'], 1), 2.0)
     return chi.HierarchicalLogLikelihood(build_likelihoods(case), pop, cov)
 
 
